@@ -73,7 +73,13 @@ def dependent_ann(draw, knames, kinds=None):
     if k == "dep":
         pid = draw(st.sampled_from(sorted(S.PRED_IMPL)))
         b = draw(st.sampled_from(bounds_for(pid, knames)))
-        return ["dep", ["cls", b] if b != "object" else ["obj"], pid]
+        bound = ["cls", b] if b != "object" else ["obj"]
+        if draw(st.integers(0, 9)) == 0:
+            # the bound is itself a value-dependent type: Dependent[Dependent[int, pos], even]
+            same_domain = sorted(q for q in S.PRED_IMPL if S.PRED_DOMAIN[q] == S.PRED_DOMAIN[pid] and q != pid)
+            if same_domain:
+                bound = ["dep", bound, draw(st.sampled_from(same_domain))]
+        return ["dep", bound, pid]
     if k == "lit":
         n = draw(st.sampled_from([1, 1, 1, 2, 2, 3]))
         vals = draw(st.lists(st.sampled_from(LIT_POOL), min_size=n, max_size=n, unique_by=repr))
